@@ -883,7 +883,10 @@ func c22Agg(c c22Col, in []c22PV) (c22ExpCell, []int64) {
 			x, _ := c22Num(p.V)
 			s += x
 		}
-		return c22One(c22Cell{K: 'f', F: s / float64(len(in))}), nil
+		// The sum of the dyadic inputs is exact, but the engine combines per-series / per-shard
+		// partial means weighted by their counts (mean·n re-summed), an evaluation order the
+		// documentation does not fix: observed 1-ulp differences, hence the 1e-12 relative rule.
+		return c22ExpCell{Alts: []c22Cell{{K: 'f', F: s / float64(len(in))}}, Approx: true}, nil
 	case "min", "max":
 		best, _ := c22Num(in[0].V)
 		for _, p := range in {
